@@ -68,6 +68,11 @@ void run_case(char *rest)
 			default: ret = sprintbuf(p, "%s%c%s%c%s%c%s", piece[0], 0, piece[1], 0, piece[2], 0, piece[3]); break;
 			}
 			err = errno; (free)(b); (free)(z); break; }
+		case 'X':
+			/* the arguments point into the print buffer itself (only generated right after an append, when
+			 * the contents are NUL-terminated) */
+			ret = sprintbuf(p, "<%s|%d|%s>", p->buf, atoi(tok + 1), p->buf);
+			err = errno; break;
 		case 'R':
 			printbuf_reset(p); ret = 0; err = 0; break;
 		default: printf("BADOP"); printbuf_free(p); return;
